@@ -286,4 +286,6 @@ MUTANTS += [
     dict(id="c10-r6-seed", canary=True, what="[seeded by sub-agent] SE3 interpolation builds the nodal rotations without normalising the nodal quaternion", file=CR,
          old="                A_IB_node = Exp_SO3_quat(qe[self.nodalDOF_element_p[node]])", new="                A_IB_node = Exp_SO3_quat(qe[self.nodalDOF_element_p[node]], normalize=False)", expect="C10.R6", optional=True),
 ]
-NEUTRAL = []
+NEUTRAL = [
+    dict(id="c10-n-r5", what="set_reference_strains stores the reference through np.array", file="cardillo/rods/_base.py",
+         old="        self.Q = Q.copy()\n\n        # precompute values of the reference configuration", new="        self.Q = np.array(Q, dtype=float)\n\n        # precompute values of the reference configuration"),]
